@@ -13,7 +13,7 @@ import os
 
 from bfsa.guard import atoms, disjuncts, dominates, raise_rel, rel, show_rel, unsnap
 from bfsa.heap import Unsupported
-from bfsa.layout import RField, Writer, extract_readers, is_call_named, meth_call, show_segs
+from bfsa.layout import RField, Writer, builtin_call, extract_readers, is_call_named, meth_call, show_segs
 from bfsa.length import lin, lin_eq
 from bfsa.load import AnalysisError, NotConst
 from bfsa.symexec import Exec
@@ -212,7 +212,21 @@ def unpack_rules(prog, chk, pid):
     chk.require(okp, P_("page-arithmetic"), fi.qualname, "(tagtype - first tagtype) * 0x10000 + offset", off.ev.where, "addresses continue across 64 KiB pages: page index = tag type minus the section's first tag type", "address is not computed as (tagtype - first tagtype) * 0x10000 + 16-bit offset")
     # gap test and flush
     sets = [e for e in res.events if e.kind == "setitem" and unsnap(e.d["base"]).op == "ref"]
-    okf = len(sets) == 2 and all(unsnap(s.d["value"]).op == "join" for s in sets)
+    def _is_run(v):
+        """the assembled run: b"".join(<list of payloads>), or bytes(<bytearray the payloads were appended to>)"""
+        v = unsnap(v)
+        if v.op == "join":
+            return True
+        bc = builtin_call(v)
+        if bc and bc[0] == "bytes" and len(bc[1]) == 1 and not bc[2]:
+            a0 = unsnap(bc[1][0])
+            if a0.op == "snap":
+                a0 = unsnap(a0.args[0])
+            o_ = (res.state.heap.get(a0.args[0]) if res.state is not None and a0.op == "ref" else None)
+            return o_ is not None and o_.kind == "bytearray"
+        return False
+
+    okf = len(sets) == 2 and all(_is_run(s.d["value"]) for s in sets)
     chk.require(okf, P_("blocks-flushed"), fi.qualname, "blocks[start] = b''.join(cur_block) at every gap and at the end", where, "a contiguous run is stored under its start address when a gap is seen and after the last line", "assembled runs are not stored at both flush points")
     # the gap test itself: flush exactly when this line's address differs from the end of the previous line
     okg, whyg = offs is not None, "line address term not found"
@@ -237,7 +251,30 @@ def unpack_rules(prog, chk, pid):
                 r = rel(f[1], f[2])
                 ats.extend(r[1] if r[0] == "and" else [r])
         gap = [a for a in ats if a[0] == "rel" and a[1] == "NotEq" and {unsnap(a[2]).uid, unsnap(a[3]).uid} == {endv.uid, offs.uid}]
-        extra = [a for a in ats if a not in gap and not (a[0] == "rel" and a[1] == "Truthy" and unsnap(a[2]).op == "loopvar")]
+        def first_trip_marker(a):
+            """`V is not None` for a loop variable that is None before the loop and never None afterwards: false on the first trip only (nothing to flush yet)"""
+            if not (a[0] == "rel" and a[1] == "IsNot" and a[3] is not None):
+                return False
+            x = unsnap(a[3]) if unsnap(a[2]) is NONE else unsnap(a[2]) if unsnap(a[3]) is NONE else None
+            if x is None or x.op != "loopvar" or x.args[0] != lid or lr.init.get(x.args[1]) is not NONE:
+                return False
+            nxt = lr.next.get(x.args[1])
+            if nxt is None:
+                return False
+
+            # on every path through the body the variable ends up as an address: the line's, or the one it already held where it is known not to be None
+            def settles(t, maybe_none):
+                t = unsnap(t)
+                if t.op == "phi":
+                    r_ = rel(t.args[0], True)
+                    if r_[0] == "rel" and r_[1] in ("Is", "IsNot") and {unsnap(r_[2]).uid, unsnap(r_[3]).uid} == {x.uid, NONE.uid}:
+                        none_arm, other = (t.args[1], t.args[2]) if r_[1] == "Is" else (t.args[2], t.args[1])
+                        return settles(none_arm, True) and settles(other, False)
+                    return settles(t.args[1], maybe_none) and settles(t.args[2], maybe_none)
+                return t is offs or (t is x and not maybe_none)
+            return settles(nxt, True)
+
+        extra = [a for a in ats if a not in gap and not (a[0] == "rel" and a[1] == "Truthy" and unsnap(a[2]).op == "loopvar") and not first_trip_marker(a)]
         okg = len(gap) == 1 and not extra
         whyg = "the flush inside the loop is not guarded by exactly `address != end of previous line` (conditions: %s)" % "; ".join(show_rel(a, 5) for a in ats)[:200]
     chk.require(okg, P_("gap-test"), fi.qualname, "payload_offs != cur_block_end_adr [and cur_block] -> start a new run", gap_where,
